@@ -26,6 +26,6 @@ void h_copy_to_ucol(void) {
   __CPROVER_assert(0, "canary: copy_to_ucol returns");
   if (g_ret != 0) __CPROVER_assert(0, "canary: allocation error returned");
   if (g_ret == 0 && g_off[in_nseg] == 0) __CPROVER_assert(0, "canary: empty U column");
-  if (g_ret == 0 && in_nseg >= 2 && g_off[1] >= 2 && g_off[in_nseg] > g_off[1] && g_s == 1 && in_usub[g_nextu0 + g_off[1]] == 2) __CPROVER_assert(0, "canary: two segments copied");
+  if (g_ret == 0 && in_nseg >= 2 && g_off[1] >= 1 && g_off[in_nseg] > g_off[1]) __CPROVER_assert(0, "canary: two segments copied");
   if (g_ret == 0 && in_Glu.nextu == in_Glu.nzumax && g_off[in_nseg] > 0) __CPROVER_assert(0, "canary: U storage exactly filled");
 }
